@@ -249,10 +249,13 @@ Definition usable_key (e : sentry) : bool := match e_key e with EK32 true => tru
 (* the scripted server's answer to a resumption request *)
 Inductive rreply := RClosed | RReply (rc : rcode).
 
-(* checkResumedSession *)
-Definition resumed_result (c : cfg) (e : sentry) (encrypted : bool) : outcome :=
+(* checkResumedSession.  The authentication requirement is enforced on the client
+   only: on the server the policy that applies to a resumed session is the one of
+   the command being run, checked by the dispatching server (C05) against the
+   restored outcome; the authenticator's config is merely the default. *)
+Definition resumed_result (client : bool) (c : cfg) (e : sentry) (encrypted : bool) : outcome :=
   if negb encrypted && needs_protection c then Err []
-  else if is_rq (c_auth c) && negb (entry_authenticated e) then Err []
+  else if client && is_rq (c_auth c) && negb (entry_authenticated e) then Err []
   else Ok (mkR (entry_authenticated e) encrypted mNONE [] encrypted (if encrypted then Some KCached else None)).
 
 (* resumeSession on an entry (named explicitly or found through the command map) *)
@@ -262,11 +265,11 @@ Definition client_resume (c : cfg) (e : sentry) (rp : rreply) : outcome :=
   | RReply rc =>
       if rc_rejects rc then Err []
       else match e_key e with
-           | EK32 true => resumed_result c e true            (* SetSymmetricKey(cached key) *)
+           | EK32 true => resumed_result true c e true       (* SetSymmetricKey(cached key) *)
            | EKBadLen true => Err []                         (* SetSymmetricKey refuses the length *)
            | EK32 false | EKBadLen false =>                  (* not AES-GCM: no key installed; plaintextOutcome *)
-               if needs_protection c then Err [] else resumed_result c e false
-           | EKNone | EKEmpty _ => resumed_result c e false  (* no secret: setupStreamEncryption not called *)
+               if needs_protection c then Err [] else resumed_result true c e false
+           | EKNone | EKEmpty _ => resumed_result true c e false  (* no secret: setupStreamEncryption not called *)
            end
   end.
 
@@ -274,5 +277,5 @@ Definition client_resume (c : cfg) (e : sentry) (rp : rreply) : outcome :=
 Definition server_resume (c : cfg) (found : option sentry) : outcome :=
   match found with
   | None => Err []
-  | Some e => if usable_key e then resumed_result c e true else Err []
+  | Some e => if usable_key e then resumed_result false c e true else Err []
   end.
